@@ -113,6 +113,15 @@ def run(ctx: common.Ctx):
     n = 220 if ctx.tier == "quick" else 2500
     recs = tables.pmap(worker, [(ctx.seed * 100003 + k, ctx.tier) for k in range(n)], chunk=4)
     report_sized(ctx, recs)
+    # graph-level tie (B): with symbolic / unknown dimensions the library must export exactly the size-independent
+    # terms of Model/TGraphFns.lean, whose correctness at every concrete size is Props/C06Graph.lean
+    from .. import tgraph
+    from . import c08
+    tgraph.run_layout(ctx, 200 if ctx.tier == "quick" else 2000, styles=("symbolic", "none"), label="layout-symbolic")
+    import random as _r
+    cases = c08.gen_cases(ctx)
+    _r.Random(ctx.seed).shuffle(cases)
+    tgraph.run_getitem(ctx, cases[:1200 if ctx.tier == "quick" else 20000], styles=("symbolic", "none"), label="getitem-symbolic")
 
 
 def report_sized(ctx, recs):
